@@ -356,3 +356,46 @@ def c07_api(rec, obs):
     if not plain:
         return False
     return certain and got != want
+
+
+def c06_national(rec, obs):
+    from spec import national
+
+    cc = rec["cc"]
+    bban = "".join(map(chr, rec["call"]["steps"][0][2][1]["cp"]))
+    want, certain = national.accepts_concrete(cc, bban)
+    if obs["outcome"] == "return":
+        return obs["value"] is not True or (certain and not want)
+    return not obs["library"] or (certain and want)
+
+
+def c06_integration(rec, obs):
+    import schwifty
+    from schwifty.exceptions import SchwiftyException
+    from spec import national
+
+    s = iso13616.normalise_concrete(_text(rec))
+    cc = rec["cc"]
+    r0 = _outcome(lambda: schwifty.IBAN(s))
+    r1 = _outcome(lambda: schwifty.IBAN(s, validate_bban=True))
+    try:
+        obj = schwifty.IBAN(s, allow_invalid=True)
+    except Exception:  # noqa: BLE001
+        return True
+    try:
+        r2 = ("ret", obj.bban.validate_national_checksum())
+    except SchwiftyException as e:
+        r2 = ("exc", type(e).__name__)
+    except Exception:  # noqa: BLE001
+        return True
+    r3 = _outcome(lambda: obj.validate(validate_bban=True))
+    ok0, ok1, ok2, ok3 = (r[0] == "ret" for r in (r0, r1, r2, r3))
+    if ok1 != (ok0 and ok2) or ok3 != ok1:
+        return True
+    if cc not in national.COUNTRIES and (not ok2 or ok1 != ok0):
+        return True
+    if ok2 and r2[1] is not True:
+        return True
+    if ok0 and not ok1 and r1[1] not in ("InvalidBBANChecksum", "InvalidAccountCode"):
+        return True
+    return False
